@@ -493,6 +493,10 @@ def case_bootstrap(col, p):
                     if not np.allclose(np.asarray(b.data), ex, rtol=1e-12, atol=1e-12) or bool(b.folded) != (not polarized) or b.pop_ids != ['A']:
                         col.violation('C13:bootstraps_from_dd_chunks:not_sum_of_chosen_chunks', dict(kind='bootstrap', nchunks=nchunks, answer=answer, polarized=polarized), '')
                         break
+                    if polarized and np.ma.getmaskarray(b).any():
+                        # corners were asked to stay unmasked: the bootstrap's total is the number of SNPs drawn
+                        col.violation('C13:bootstraps_from_dd_chunks:mask_corners_ignored', dict(kind='bootstrap', nchunks=nchunks, answer=answer), '')
+                        break
                 if len(boots) != 2:
                     col.violation('C13:bootstraps_from_dd_chunks:count', dict(kind='bootstrap', nchunks=nchunks), len(boots))
     finally:
@@ -513,7 +517,8 @@ def case_boot_subsample(col, p):
         for aa in ('ref', 'alt'):
             r = Row()
             pos += 1
-            r.chrom, r.pos, r.gts, r.aa, r.filt, r.alleles = '1', pos, gts, aa, 'PASS', 'plain'
+            # every third line fails a filter: kept when the caller says filter=False
+            r.chrom, r.pos, r.gts, r.aa, r.filt, r.alleles = '1', pos, gts, aa, ('PASS' if pos % 3 else 'q10'), 'plain'
             rows.append(r)
     tmp = _tmp()
     n = 0
@@ -528,15 +533,17 @@ def case_boot_subsample(col, p):
         import warnings
         with warnings.catch_warnings():
             warnings.simplefilter('ignore')
-            dd = dadi.Misc.make_data_dict_vcf(vcf, popf)
-            for mc, pol, rev in itertools.product((True, False), (True, False), (False, True)):
-                ex = dadi.Spectrum.from_data_dict(dd, pops, proj, mask_corners=mc, polarized=pol)
+            dds = {flt: dadi.Misc.make_data_dict_vcf(vcf, popf, filter=flt) for flt in (True, False)}
+            if not len(dds[False]) > len(dds[True]) > 0:
+                col.violation('harness:C13:boot_subsample_filter_rows', dict(p), {'kept': len(dds[True]), 'all': len(dds[False])})
+            for mc, pol, rev, flt in itertools.product((True, False), (True, False), (False, True), (True, False)):
+                ex = dadi.Spectrum.from_data_dict(dds[flt], pops, proj, mask_corners=mc, polarized=pol)
                 # the subsample dictionary is looked up by population name: the order of its keys is the caller's business
                 sub_arg = dict(reversed(list(subs.items()))) if rev else dict(subs)
-                boots = dadi.Misc.bootstraps_subsample_vcf(vcf, popf, sub_arg, 2, 10 ** 9, pops, mask_corners=mc, polarized=pol)
+                boots = dadi.Misc.bootstraps_subsample_vcf(vcf, popf, sub_arg, 2, 10 ** 9, pops, mask_corners=mc, polarized=pol, filter=flt)
                 col.tick(transitions=2)
                 n += 1
-                info = dict(kind='boot_subsample', layout=layout, mask_corners=mc, polarized=pol, subsample_keys_reversed=rev)
+                info = dict(kind='boot_subsample', layout=layout, mask_corners=mc, polarized=pol, subsample_keys_reversed=rev, filter=flt)
                 if len(boots) != 2:
                     col.violation('C13:bootstraps_subsample_vcf:count', info, len(boots))
                 for b in boots:
